@@ -2229,6 +2229,9 @@ pub fn run_timers(seed: u64, params: &Params, out: &mut ScnOut) {
                 }
                 Some(_) => {}
                 None => {
+                    // (judged at the caller's own last step: an application that is stalled when
+                    // the session ends has not had the step in which it would report the outcome)
+                    let t_end = if disc_by_client { w.clients[ci].last_step_ns } else { w.server.last_step_ns };
                     if t_end > t0_tx.saturating_add(22 * SEC + 12 * gap + SEC) {
                         w.viol("C10", "disconnect-timeout-missing", format!("{} has no terminal event {} ms after its first Disconnect request", who, (t_end - t0) / MS));
                     }
@@ -2263,10 +2266,10 @@ pub fn run_timers(seed: u64, params: &Params, out: &mut ScnOut) {
         // one frame per second, can owe thousands of acknowledgement groups, which it sends one
         // per step and ahead of any keepalive (see the observations in DESIGN I.7).
         let symmetric_ok = ccfg.keepalive && scfg_ep.keepalive
-            && ccfg.active_timeout_ms >= scfg_ep.keepalive_interval_ms.max(2000).max(max_rto_server) + slack + 500
-            && scfg_ep.active_timeout_ms >= ccfg.keepalive_interval_ms.max(2000).max(max_rto_client) + slack + 500;
-        let judged_general = if idle_focus { eff_observed.map_or(false, |e| min_to >= e + slack + 500) } else { symmetric_ok };
-        let judged_fast = idle_focus && fast && eff_apriori.map_or(false, |e| min_to >= e + slack + 3500);
+            && ccfg.active_timeout_ms >= scfg_ep.keepalive_interval_ms.max(2000).max(max_rto_server).saturating_add(slack + 500)
+            && scfg_ep.active_timeout_ms >= ccfg.keepalive_interval_ms.max(2000).max(max_rto_client).saturating_add(slack + 500);
+        let judged_general = if idle_focus { eff_observed.map_or(false, |e| min_to >= e.saturating_add(slack + 500)) } else { symmetric_ok };
+        let judged_fast = idle_focus && fast && eff_apriori.map_or(false, |e| min_to >= e.saturating_add(slack + 3500));
         if judged_fast {
             w.c.inc("c10_keepalive_cases_checked_fast_domain");
         }
